@@ -281,6 +281,12 @@ class Parser:
 
         for num, self.line in enumerate(lines):
             self.process_line(num != len(lines) - 1)
+        if self.statement and self.new_statement:
+            # the last line itself started a new statement (the previous one had
+            # no ';'): nothing follows that would flush it
+            self.new_statement = False
+            self.set_default_flags_in_lexer()
+            self.process_statement()
         if self.set_line and len(self.set_line.split()) >= 3:
             # a SET statement on the last line has no following line to flush it
             self.process_set()
